@@ -133,7 +133,8 @@ impl Arb for ForgeSpec {
 
 impl Arb for SigMut {
     fn arb(u: &mut Unstructured<'_>) -> Result<Self> {
-        Ok(match u.int_in_range(0..=18u8)? {
+        Ok(match u.int_in_range(0..=19u8)? {
+            19 => SigMut::HintDuplicateInsert { nth: u.arbitrary()? },
             18 => SigMut::HintLeadingZeroTwice { poly: u.arbitrary()? },
             17 => SigMut::HintRunaway { bound: u.arbitrary()? },
             0 => SigMut::FlipBit(u.arbitrary()?),
@@ -259,5 +260,100 @@ impl Arb for c13::Op {
 impl Arb for c13::Case {
     fn arb(u: &mut Unstructured<'_>) -> Result<Self> {
         Ok(c13::Case { set: u.int_in_range(0..=2)?, ops: vec_of(u, 1, 12)? })
+    }
+}
+
+// ---------------------------------------------------------------------------------------------
+// Model-based API histories (props::history)
+
+use crate::gen::twins::{CompOp, Twin, TWIN_LENS};
+use crate::libapi::Fault;
+use crate::props::history::{Case as HCase, HOp, KeySrc, SigSel};
+
+impl Arb for Twin {
+    fn arb(u: &mut Unstructured<'_>) -> Result<Self> {
+        let n = *u.choose(&TWIN_LENS)?;
+        Ok(match u.int_in_range(0..=5u8)? {
+            0 | 1 => Twin::Tail { n, seed: u64::from(u.arbitrary::<u8>()?) },
+            2 => Twin::Head { n, seed: u64::from(u.arbitrary::<u8>()?) },
+            3 => Twin::Region { pos: u.arbitrary()?, n, seed: u64::from(u.arbitrary::<u8>()?) },
+            4 => Twin::Byte { pos: u.arbitrary()?, mask: u.int_in_range(1..=255)? },
+            _ => Twin::Compensated {
+                width: *u.choose(&[1u8, 2, 4, 8])?,
+                op: match u.int_in_range(0..=3u8)? {
+                    0 => CompOp::Add,
+                    1 => CompOp::Xor,
+                    2 => CompOp::XorRot,
+                    _ => CompOp::Poly(*u.choose(&[31u8, 33, 37, 131])?),
+                },
+                word: u.arbitrary()?,
+                gap: u.int_in_range(1..=3)?,
+                delta: u64::from(u.arbitrary::<u32>()?),
+            },
+        })
+    }
+}
+
+fn fault(u: &mut Unstructured<'_>) -> Result<Option<Fault>> {
+    Ok(match u.int_in_range(0..=7u8)? {
+        0 => Some(Fault::ErrBefore),
+        1 => Some(Fault::ErrAfter(*u.choose(&[1u8, 16, 31, 32])?)),
+        _ => None,
+    })
+}
+
+/// private keys whose signing loop stays short (as in `history::tame_sk`)
+fn tame_sk(u: &mut Unstructured<'_>) -> Result<SkSpec> {
+    Ok(if u.ratio(3, 5)? {
+        SkSpec::Generated(Seed32::arb(u)?)
+    } else {
+        let t = u64::from(u.arbitrary::<u8>()?);
+        SkSpec::Fields { rho: Seed32::arb(u)?, key: Seed32::arb(u)?, tr_seed: t, s1: Pattern::arb(u)?, s2: Pattern::arb(u)?, t0: Pattern::Random(t), consistent: u.arbitrary()? }
+    })
+}
+
+impl Arb for HOp {
+    fn arb(u: &mut Unstructured<'_>) -> Result<Self> {
+        Ok(match u.int_in_range(0..=31u8)? {
+            0..=2 => HOp::Keygen(Seed32::arb(u)?),
+            3 | 4 => HOp::KeygenRng { seed: Seed32::arb(u)?, fault: fault(u)?, modfn: u.arbitrary()? },
+            5..=7 => HOp::ImportPk(match u.int_in_range(0..=2u8)? {
+                0 => KeySrc::Spec(PkSpec::arb(u)?),
+                1 => KeySrc::Pool(u.arbitrary()?),
+                _ => KeySrc::TwinOf(u.arbitrary()?, Twin::arb(u)?),
+            }),
+            8..=10 => HOp::ImportSk(match u.int_in_range(0..=2u8)? {
+                0 => KeySrc::Spec(tame_sk(u)?),
+                1 => KeySrc::Pool(u.arbitrary()?),
+                _ => KeySrc::TwinOf(u.arbitrary()?, Twin::arb(u)?),
+            }),
+            11..=16 => HOp::Sign { sk: u.arbitrary()?, msg: msg(u, 300)?, ctx: ctx(u, true)?, mode: u.int_in_range(0..=3)?, rnd: Seed32::arb(u)?, fault: fault(u)? },
+            17..=22 => HOp::Verify {
+                pk: u.arbitrary()?,
+                sig: match u.int_in_range(0..=6u8)? {
+                    0..=3 => SigSel::Pool(u.arbitrary()?),
+                    4 | 5 => SigSel::Mutated(u.arbitrary()?, SigMut::arb(u)?),
+                    _ => SigSel::Uniform(u64::from(u.arbitrary::<u8>()?)),
+                },
+                other_msg: u.ratio(1, 7)?,
+                other_ctx: if u.ratio(1, 7)? { Some(ctx(u, true)?) } else { None },
+                other_mode: if u.ratio(1, 7)? { Some(u.int_in_range(0..=3)?) } else { None },
+            },
+            23..=25 => HOp::Derive(u.arbitrary()?),
+            26 => HOp::SkBytes(u.arbitrary()?),
+            27 => HOp::PkBytes(u.arbitrary()?),
+            28 => if u.arbitrary()? { HOp::DropSk(u.arbitrary()?) } else { HOp::DropPk(u.arbitrary()?) },
+            29 => if u.arbitrary()? { HOp::CloneSk(u.arbitrary()?) } else { HOp::ClonePk(u.arbitrary()?) },
+            30 => HOp::AssignSk { dst: u.arbitrary()?, src: u.arbitrary()? },
+            _ => HOp::AssignPk { dst: u.arbitrary()?, src: u.arbitrary()? },
+        })
+    }
+}
+
+impl Arb for HCase {
+    fn arb(u: &mut Unstructured<'_>) -> Result<Self> {
+        let mut ops = vec![HOp::Keygen(Seed32::arb(u)?)];
+        ops.extend(vec_of::<HOp>(u, 2, 16)?);
+        Ok(HCase { set: u.int_in_range(0..=2)?, ops })
     }
 }
